@@ -20,6 +20,7 @@ pub mod c16b;
 pub mod c18;
 pub mod c19;
 pub mod c20;
+pub mod c20b;
 pub mod stateful;
 use stateful::Target;
 
@@ -78,7 +79,13 @@ pub fn run(ctx: &Ctx) -> Option<Report> {
         }
         "C18" => Some(c18::run(ctx)),
         "C19" => Some(c19::run(ctx)),
-        "C20" => Some(c20::run(ctx)),
+        "C20" => {
+            let mut r = c20::run(ctx);
+            let floor = r.nontrivial_floor;
+            r.merge(c20b::run(ctx));
+            r.nontrivial_floor = floor;
+            Some(r)
+        }
         "C06" => {
             let mut r = stateful::run_target(ctx, Target::C06);
             let pure = c06a::run(ctx);
@@ -135,7 +142,13 @@ pub fn replay(ctx: &Ctx, case: &Value) -> Option<Report> {
         }
         "C18" => Some(c18::replay(ctx, case)),
         "C19" => Some(c19::replay(ctx, case)),
-        "C20" => Some(c20::replay(ctx, case)),
+        "C20" => {
+            if case.get("half").and_then(|h| h.as_str()) == Some("c20b") {
+                Some(c20b::replay(ctx, case))
+            } else {
+                Some(c20::replay(ctx, case))
+            }
+        }
         "C06" => {
             if case.get("ops").is_some() {
                 Some(stateful::replay_target(ctx, Target::C06, case))
